@@ -353,7 +353,49 @@ def r3_context_per_function(ctx):
         ctx.bad("in_loop-paired", cs.where(), "the loop depth is not incremented before and decremented after the loop body")
 
 
-RULES = [("C09-R1", r1a_typing_tables), ("C09-R1b", r1b_accepted_is_evaluable), ("C09-R2", r2_rule_presence), ("C09-R3", r3_context_per_function)]
+def r4_declared_type_follows_latest_declaration(ctx):
+    """`make x get A ... make x get B` in one block: the type recorded for x must become B's."""
+    cs = ctx.need("resolver::Resolver::check_stmt")
+    ctx.touch(cs)
+    vt = [i for i, l in enumerate(cs.locals) if l["name"] == "var_type"]
+    if not vt:
+        # fall back: the local that holds unwrap_or(infer_expr_type(..), Dynamic) in the Assign arm
+        for c in cs.calls():
+            if (c.callee or "").endswith("Option::unwrap_or") and "infer_expr_type" in sh(ne(cs.deep(c.args[0]))) and not c.dest["p"]:
+                vt.append(c.dest["l"])
+    if not vt:
+        ctx.bad("redeclare|no-type-local", cs.where(), "check_stmt's `make` arm no longer computes the declared type from the initialiser")
+        return
+    from ..mir import read_places
+    uses = sorted({b for b, pl in read_places(cs) if pl["l"] in vt and not pl["p"]})
+    # the Option switch that separates "name already declared in this scope" from "new name"
+    sw = None
+    for S in sorted(cs.live):
+        if cs.blocks[S]["t"]["k"] != "switch":
+            continue
+        si = cs.switch_info(S)
+        if si["kind"] == "discr" and si["ty"].endswith("Option"):
+            d = sh(ne(cs.deep(cs.blocks[S]["t"]["d"])))
+            if ("rposition" in d or "position" in d or "find" in d) and "variable_scopes" in d:
+                sw = (S, si)
+                break
+    if sw is None:
+        ctx.bad("redeclare|no-lookup", cs.where(), "the `make` arm no longer looks the name up in the current scope")
+        return
+    S, si = sw
+    some_use = [b for b in uses for lab, _ in cs.succ[S] if label_names(cs, S, [lab], si) == {"Some"} and cs.edge_dominated(b, S, [lab])]
+    none_use = [b for b in uses for lab, _ in cs.succ[S] if label_names(cs, S, [lab], si) == {"None"} and cs.edge_dominated(b, S, [lab])]
+    if none_use:
+        ctx.ok("declare|type-recorded", cs.where(none_use[0]), "a new variable is recorded with the initialiser's type")
+    else:
+        ctx.bad("declare|type-recorded", cs.where(S), "a new variable is not recorded with its initialiser's type")
+    if some_use:
+        ctx.ok("redeclare|type-refreshed", cs.where(some_use[0]), "a redeclaration in the same block stores the new initialiser's type")
+    else:
+        ctx.bad("redeclare|type-refreshed", cs.where(S), "on the redeclaration path (`make x` when x already exists in this block) the new static type is never stored: later uses of x are checked against the old type")
+
+
+RULES = [("C09-R1", r1a_typing_tables), ("C09-R1b", r1b_accepted_is_evaluable), ("C09-R2", r2_rule_presence), ("C09-R3", r3_context_per_function), ("C09-R4", r4_declared_type_follows_latest_declaration)]
 
 EXPLANATION = (
     "R1: the accept/reject arms of check_expr are evaluated arm-by-arm (first-match semantics over name-resolved HIR patterns) "
